@@ -619,7 +619,8 @@ class SegmentWriter(IndexWriter):
 
     def delete_document(self, docnum, delete=True):
         self._check_state()
-        if docnum >= sum(seg.doc_count_all() for seg in self.segments):
+        if docnum < 0 or docnum >= sum(seg.doc_count_all()
+                                       for seg in self.segments):
             raise IndexingError("No document ID %r in this index" % docnum)
         segment, segdocnum = self._segment_and_docnum(docnum)
         segment.delete_document(segdocnum, delete=delete)
